@@ -345,26 +345,53 @@ Qed.
 
 (** ------------------------------------------------------------------ the oracle *)
 
-Lemma oracle_model c d ul prev : oracle c d ul prev (to_obs (process c d ul prev)) = true.
+(** outside the class of the open finding scmp-dst-type-unchecked the oracle holds on the model *)
+Lemma oracle_model_except_known c d ul prev :
+  known_scmp_dst_type d = false -> oracle c d ul prev (to_obs (process c d ul prev)) = true.
 Proof.
-  destruct (process c d ul prev) as [|a port|r] eqn:E; cbn [to_obs oracle].
+  intros K. destruct (process c d ul prev) as [|a port|r] eqn:E; cbn [to_obs oracle].
   - reflexivity.
   - apply process_forward in E as (p & -> & Ed & Es & H). rewrite Ed, Es. cbn [andb].
-    destruct H as [(sp & dp & El4 & Eg)|(ty & code & pl & q & El4 & _ & Eg)].
-    + now rewrite (udp_dest_ok c p sp dp a port El4 Eg).
-    + now rewrite (scmp_dest_ok c p ty code pl q a port El4 Eg).
+    unfold dest_ok_strict, scmp_dst_typed.
+    destruct H as [(sp & dp & El4 & Eg)|(ty & code & pl & q & El4 & Ei & Eg)].
+    + rewrite (udp_dest_ok c p sp dp a port El4 Eg), El4. reflexivity.
+    + rewrite (scmp_dest_ok c p ty code pl q a port El4 Eg), El4.
+      cbn [known_scmp_dst_type] in K. rewrite El4, Ei in K. cbn [negb andb] in K.
+      apply negb_false_iff in K. now rewrite K.
   - apply process_reply in E as (p & ty & code & pl & q & -> & El4 & Ei & Em).
     rewrite El4, Ei. cbn [andb]. now apply make_reply_ok.
+Qed.
+
+Lemma forward_strict_except_known c d ul prev a port :
+  known_scmp_dst_type d = false -> process c d ul prev = Forward a port ->
+  exists p, d = Pkt p /\ dest_ok_strict c p a port = true.
+Proof.
+  intros K E. apply process_forward in E as (p & -> & Ed & Es & H). exists p. split; [reflexivity|].
+  unfold dest_ok_strict, scmp_dst_typed.
+  destruct H as [(sp & dp & El4 & Eg)|(ty & code & pl & q & El4 & Ei & Eg)].
+  - rewrite (udp_dest_ok c p sp dp a port El4 Eg), El4. reflexivity.
+  - rewrite (scmp_dest_ok c p ty code pl q a port El4 Eg), El4.
+    cbn [known_scmp_dst_type] in K. rewrite El4, Ei in K. cbn [negb andb] in K.
+    apply negb_false_iff in K. now rewrite K.
+Qed.
+
+Lemma dest_ok_strict_legit c p a port :
+  dest_ok_strict c p a port = true -> legit_dest_strict c p a port.
+Proof.
+  unfold dest_ok_strict, legit_dest_strict, scmp_dst_typed. intros H.
+  apply andb_true_iff in H as [H1 H2]. split; [now apply dest_ok_legit|].
+  intros ty code pl q El4. now rewrite El4 in H2.
 Qed.
 
 Lemma oracle_forward_sound c d ul prev a port same :
   oracle c d ul prev (OForward a port same) = true ->
   same = true /\ is_disp c = true /\
-  exists p, d = Pkt p /\ legit_dest c p a port /\ same_host a ul = true.
+  exists p, d = Pkt p /\ legit_dest_strict c p a port /\ same_host a ul = true.
 Proof.
   cbn [oracle]. intros H. apply andb_true_iff in H as [H H3]. apply andb_true_iff in H as [H1 H2].
   destruct d as [|p]; [discriminate|]. apply andb_true_iff in H3 as [H3 H4].
-  repeat split; try assumption. exists p. repeat split; [now apply dest_ok_legit | assumption].
+  repeat split; try assumption. exists p. split; [reflexivity|].
+  split; [now apply dest_ok_strict_legit | assumption].
 Qed.
 
 (** ------------------------------------------------------------------ host packing *)
@@ -501,4 +528,76 @@ Proof.
   destruct (1 <? num_inf p) eqn:E1.
   - destruct (sp_infos p) as [|a [|b [|c [|]]]]; cbn [length] in L; try lia; reflexivity.
   - destruct (sp_infos p) as [|a [|]]; cbn [length] in L; try lia; reflexivity.
+Qed.
+
+(** ------------------------------------------------------------------ audit follow-up:
+    pointers and segment lengths of the reversed path; one-hop and EPIC reversal *)
+
+Lemma reverse_spath_pointers p q :
+  wf_spath p -> reverse_spath p = Some q ->
+  sp_chf q = num_hops p - 1 - sp_chf p /\ sp_ci q = num_inf p - 1 - sp_ci p.
+Proof.
+  intros (H1 & H2 & H3 & H4 & H5 & H6) R. unfold reverse_spath in R.
+  pose proof (num_inf_le3 p) as L3.
+  destruct (num_inf p =? 0) eqn:E; [discriminate|].
+  destruct (if num_inf p =? 2 then _ else _) as [[a b] c].
+  apply some_inj in R. subst q. cbn [sp_chf sp_ci]. split.
+  - replace (num_hops p + 63 - sp_chf p) with (num_hops p - 1 - sp_chf p + 1 * 64) by lia.
+    rewrite N.mod_add by lia. apply N.mod_small. lia.
+  - replace (num_inf p + 3 - sp_ci p) with (num_inf p - 1 - sp_ci p + 1 * 4) by lia.
+    rewrite N.mod_add by lia. apply N.mod_small. lia.
+Qed.
+
+(** the segment lengths come in the opposite order (only the first [num_inf] are non-zero) *)
+Lemma reverse_spath_seglens p q :
+  wf_spath p -> reverse_spath p = Some q ->
+  num_inf q = num_inf p /\ num_hops q = num_hops p /\
+  firstn (N.to_nat (num_inf p)) [sp_s0 q; sp_s1 q; sp_s2 q] =
+    rev (firstn (N.to_nat (num_inf p)) [sp_s0 p; sp_s1 p; sp_s2 p]).
+Proof.
+  destruct p as [ci chf s0 s1 s2 infos hops].
+  unfold wf_spath, reverse_spath, num_inf, num_hops.
+  cbn [sp_ci sp_chf sp_s0 sp_s1 sp_s2 sp_infos sp_hops].
+  intros (Hci & Hchf & Hnh & Hlen & Hs0 & Hgap).
+  destruct (0 <? s2) eqn:E2; [|destruct (0 <? s1) eqn:E1; [|destruct (0 <? s0) eqn:E0]].
+  - assert (Hs1 : 0 < s1) by (destruct (N.eq_dec s1 0) as [Z|Z]; [specialize (Hgap Z); lia | lia]).
+    intros R. apply some_inj in R. subst q. cbn [sp_s0 sp_s1 sp_s2].
+    assert (E0 : (0 <? s0) = true) by lia. rewrite E0.
+    split; [reflexivity|]. split; [lia|]. reflexivity.
+  - assert (Z2 : s2 = 0) by lia. subst s2.
+    intros R. apply some_inj in R. subst q. cbn [sp_s0 sp_s1 sp_s2].
+    assert (E0 : (0 <? s0) = true) by lia. rewrite E0.
+    split; [reflexivity|]. split; [lia|]. reflexivity.
+  - assert (Z2 : s2 = 0) by lia. assert (Z1 : s1 = 0) by lia. subst s1 s2.
+    intros R. apply some_inj in R. subst q. cbn [sp_s0 sp_s1 sp_s2].
+    rewrite E0. split; [reflexivity|]. split; [lia|]. reflexivity.
+  - lia.
+Qed.
+
+(** a one-hop path (second hop field filled in by the receiving router) is answered over the
+    two-hop SCION path with the hop fields exchanged, against construction direction, at hop 0 *)
+Lemma reverse_onehop i h1 h2 :
+  reverse_path (POneHop i h1 h2) =
+    if h_in h2 =? 0 then None else
+    Some (PScion {| sp_ci := 0; sp_chf := 0; sp_s0 := 2; sp_s1 := 0; sp_s2 := 0;
+                    sp_infos := [ {| i_peer := false; i_cons := false;
+                                     i_segid := i_segid i; i_ts := i_ts i |} ];
+                    sp_hops := [h2; h1] |}).
+Proof.
+  unfold reverse_path, onehop_to_scion. destruct (h_in h2 =? 0); reflexivity.
+Qed.
+
+(** an EPIC path is answered over the reversal of the SCION path it contains *)
+Lemma reverse_epic s : reverse_path (PEpic s) = reverse_path (PScion s).
+Proof. reflexivity. Qed.
+
+Lemma reverse_path_type p q : reverse_path p = Some q -> q = PEmpty \/ exists s, q = PScion s.
+Proof.
+  destruct p as [|s|i h1 h2|s|ty]; cbn [reverse_path].
+  - intros H; apply some_inj in H; now left.
+  - destruct (reverse_spath s) as [r|]; [|discriminate]. intros H; apply some_inj in H. right. now exists r.
+  - destruct (onehop_to_scion i h1 h2) as [s|]; [|discriminate].
+    destruct (reverse_spath s) as [r|]; [|discriminate]. intros H; apply some_inj in H. right. now exists r.
+  - destruct (reverse_spath s) as [r|]; [|discriminate]. intros H; apply some_inj in H. right. now exists r.
+  - discriminate.
 Qed.
